@@ -11,4 +11,5 @@ def main (args : List String) : IO UInt32 := do
   | ["manifest"] => statefulLoop stdin stdout manifestStep {}; return 0
   | ["bloom"] => statelessLoop stdin stdout bloomStep; return 0
   | ["trie"] => statefulLoop stdin stdout trieStep {}; return 0
-  | _ => IO.eprintln "usage: bmd_aux <manifest|bloom|trie>"; return 2
+  | ["subscribe"] => statefulLoop stdin stdout subscribeStep {}; return 0
+  | _ => IO.eprintln "usage: bmd_aux <manifest|bloom|trie|subscribe>"; return 2
